@@ -190,3 +190,17 @@ def _add(detector, b, level, shape, p):
         cont.array = px.level_array(level, shape, p.get("fdt", "float64"))
     else:
         cont.array = cont.array + np.asarray(level, dtype=cont.array.dtype)
+
+
+# the same probe as callables that are not plain functions (a model may be any callable reachable by a dotted path)
+import functools  # noqa: E402
+
+probe_partial = functools.partial(probe)
+
+
+class _ProbeObject:
+    def __call__(self, detector, _p=None, **user):
+        return probe(detector, _p=_p, **user)
+
+
+probe_object = _ProbeObject()
